@@ -64,7 +64,7 @@ static void unary_ops(const Ops<T>& in, long it)
     // exponent exact for finite inputs (0 for zeros; C leaves it unspecified for inf/NaN, so it is not looked at there)
     {
         OpStat& st = VH_ST("C02", "frexp");
-        if (st.on)
+        if (st.on || VH_ST("C13", "frexp").on)
         {
             alignas(64) T o[N];
             alignas(64) I oe[N];
@@ -79,10 +79,25 @@ static void unary_ops(const Ops<T>& in, long it)
                 const bool fin = (x == x) && !std::isinf(x);
                 int ee = 0;
                 T em = ref::frexp(x, &ee);
+                if (!st.on)
+                    break;
                 st.evals++;
                 st.cell(cellidx(in, i, 1));
                 if (!same_fp(o[i], em) || (fin && (long long)oe[i] != ee))
                     viol(st, cls_fp<T>(x, x, x), "{" + wit3(in, i) + ",\"got_m\":\"" + hexv(o[i]) + "\",\"got_e\":" + std::to_string((long long)oe[i]) + ",\"exp_m\":\"" + hexv(em) + "\",\"exp_e\":" + std::to_string(ee) + "}");
+            }
+            // C13: lane k among these companions versus the same value broadcast (mantissa and exponent bit-identical)
+            OpStat& li = VH_ST("C13", "frexp");
+            if (li.on)
+            {
+                const size_t k = (size_t)it % N;
+                BI eb;
+                B mb = xs::frexp(B(in.a[k]), eb);
+                li.evals++;
+                li.cell(cellidx(in, k, 1));
+                const bool fin = (in.a[k] == in.a[k]) && !std::isinf(in.a[k]);
+                if (!same_fp(mb.get(0), o[k]) || (fin && eb.get(0) != oe[k]))
+                    viol(li, "lane_dependence", "{" + wit3(in, k) + ",\"in_batch_m\":\"" + hexv(o[k]) + "\",\"in_batch_e\":" + std::to_string((long long)oe[k]) + ",\"broadcast_m\":\"" + hexv(mb.get(0)) + "\",\"broadcast_e\":" + std::to_string((long long)eb.get(0)) + "}");
             }
         }
     }
